@@ -3,6 +3,9 @@ import Proofs.C01.Arith
 import Proofs.C01.Entry
 import Proofs.C01.JacRefine
 import Proofs.C01.JacMult
+import Proofs.C01.CapstoneLadders
+import Proofs.C01.CapstoneCofactor
+import Proofs.C01.CapstoneToy
 /-!
 # C01 — curve and field arithmetic compute exactly the group law (DESIGN.md §3 C01)
 
@@ -216,5 +219,156 @@ theorem mod_inv_complete {n : ℕ} (hn : 1 ≤ n) (a : ℤ) (hg : Int.gcd a n = 
   exact ⟨x, hx⟩
 
 example : modInv 3 7 = some 5 := by decide
+
+end Props.C01
+
+/-! # Capstone — the three parts of C01 joined (Proofs/C01/Capstone*.lean)
+
+(A) T1 (btclib's formulas = Mathlib's group law) now DISCHARGES the hypotheses under which (B) the ladders
+(`JacRel`) and (C) every scheme-level property (`Btc.Lawful`, the named assumption of C02, C03, C07, C12, C16)
+were proved.  `Pt p c` is Mathlib's point group of `y² = x³ + ax + b` over `ZMod p`; `H` is any subgroup of it
+without points of order 2 (`⊤` on a curve of odd order; `torsionSub p c n` for odd `n`, whatever the cofactor) —
+forced by the code, whose affine routines spell infinity `y = 0` and so cannot express a point of order 2. -/
+namespace Props.C01
+open Btc Btc.C01 Btc.EC
+
+section CapstoneJac
+variable {p : ℕ} [Fact p.Prime] {c : CurveGroup} (hp : c.p = (p : ℤ))
+  (H : AddSubgroup (Pt p c)) (hH : NoTwoTorsionIn H)
+include hp hH
+
+/-- (A) ⇒ hypothesis of (B): btclib's Jacobian arithmetic `ecOps c` satisfies `JacRel` on Mathlib's point group,
+every prime `p`, every curve; the relation is "valid representative of", blinds are the `λ ≢ 0 (mod p)` -/
+theorem jac_rel_ec : ∃ L : JacRel (ecOps c) (Pt p c),
+    (∀ Q g, L.R Q g ↔ JValid p c Q ∧ absJ p c Q = g ∧ g ∈ H) ∧
+    (∀ q g, L.RA q g ↔ AValid p c q ∧ absA p c q = g ∧ g ∈ H) ∧
+    (∀ lam, L.blindOk lam ↔ (lam : ZMod p) ≠ 0) ∧ L.Functional :=
+  ⟨jacRel_ec hp H hH, fun _ _ => Iff.rfl, fun _ _ => Iff.rfl, fun _ => Iff.rfl, jacRel_ec_functional hp H hH⟩
+
+theorem mult_recursive_jac_ec (m : ℕ) (Q : JacPoint) (hQ : JValid p c Q) (hQH : absJ p c Q ∈ H) :
+    JValid p c (multRecursiveJac (ecOps c) m Q) ∧
+      absJ p c (multRecursiveJac (ecOps c) m Q) = (m : ℤ) • absJ p c Q := multRecursiveJac_ec hp H hH m Q hQ hQH
+
+theorem mult_jac_var_ec (m : ℕ) (Q : JacPoint) (hQ : JValid p c Q) (hQH : absJ p c Q ∈ H) :
+    JValid p c (multJacVar (ecOps c) m Q) ∧
+      absJ p c (multJacVar (ecOps c) m Q) = (m : ℤ) • absJ p c Q := multJacVar_ec hp H hH m Q hQ hQH
+
+theorem mult_mont_ladder_ec (m : ℕ) (Q : JacPoint) (hQ : JValid p c Q) (hQH : absJ p c Q ∈ H) :
+    JValid p c (multMontLadder (ecOps c) m Q) ∧
+      absJ p c (multMontLadder (ecOps c) m Q) = (m : ℤ) • absJ p c Q := multMontLadder_ec hp H hH m Q hQ hQH
+
+theorem mult_base_3_ec (m : ℕ) (Q : JacPoint) (hQ : JValid p c Q) (hQH : absJ p c Q ∈ H) :
+    JValid p c (multBase3 (ecOps c) m Q) ∧
+      absJ p c (multBase3 (ecOps c) m Q) = (m : ℤ) • absJ p c Q := multBase3_ec hp H hH m Q hQ hQH
+
+/-- `_mult_regular_window` — hence `_mult`, what every non-secp256k1 curve runs — ON BTCLIB'S ARITHMETIC: a valid
+triple denoting `m • Q` in Mathlib's group; every `m`, every `w ≥ 1`, every valid `Q` of `H` incl. infinity -/
+theorem mult_regular_window_ec (scalarLen m w : ℕ) (Q r : JacPoint) (hQ : JValid p c Q)
+    (hQH : absJ p c Q ∈ H) (h : multRegularWindow (ecOps c) scalarLen m Q w = some r) :
+    JValid p c r ∧ absJ p c r = (m : ℤ) • absJ p c Q := multRegularWindow_ec hp H hH scalarLen m w Q r hQ hQH h
+
+/-- `_mult_fixed_base` (what `mult(m, G)` runs) on btclib's arithmetic, any blind `λ ≢ 0 (mod p)` -/
+theorem mult_fixed_base_ec (scalarLen m w : ℕ) (lam : ℤ) (hlam : (lam : ZMod p) ≠ 0) (Q r : JacPoint)
+    (hQ : JValid p c Q) (hQH : absJ p c Q ∈ H) (h : multFixedBase (ecOps c) scalarLen lam m Q w = some r) :
+    JValid p c r ∧ absJ p c r = (m : ℤ) • absJ p c Q :=
+  multFixedBase_ec hp H hH scalarLen m w lam hlam Q r hQ hQH h
+
+/-- `_multi_mult_w_NAF_var` / `_double_mult_w_NAF_var` on btclib's arithmetic: `Σ uᵢ • Pᵢ` -/
+theorem multi_mult_wnaf_ec (isFixed : JacPoint → Bool) (fixedW w : ℕ) (hfw : 1 ≤ fixedW) (scalars : List ℕ)
+    (points : List JacPoint) (hpts : ∀ P ∈ points, JValid p c P ∧ absJ p c P ∈ H) (r : JacPoint)
+    (h : multiMultWNAF (ecOps c) isFixed fixedW scalars points w = some r) :
+    JValid p c r ∧ absJ p c r = psum p c (scalars.zip points) :=
+  multiMultWNAF_ec hp H hH isFixed fixedW w hfw scalars points hpts r h
+
+/-- Bos–Coster on btclib's arithmetic, any heap order -/
+theorem bos_coster_ec (sel : Select JacPoint) (hsel : SelectOk sel) (scalarLen multW : ℕ)
+    (scalars : List ℕ) (points : List JacPoint) (hpts : ∀ P ∈ points, JValid p c P ∧ absJ p c P ∈ H)
+    (r : JacPoint) (h : multiMultBosCoster (ecOps c) sel scalarLen multW scalars points = some r) :
+    JValid p c r ∧ absJ p c r = psum p c (scalars.zip points) :=
+  multiMultBosCoster_ec hp H hH sel hsel scalarLen multW scalars points hpts r h
+
+/-- `_multi_mult_var` on btclib's arithmetic at the GENERATED widths and threshold -/
+theorem dispatch_irrelevant_ec (sel : Select JacPoint) (hsel : SelectOk sel) (isFixed : JacPoint → Bool)
+    (fixedW scalarLen : ℕ) (hfw : 1 ≤ fixedW) (scalars : List ℕ) (points : List JacPoint)
+    (hpts : ∀ P ∈ points, JValid p c P ∧ absJ p c P ∈ H) (r : JacPoint)
+    (h : multiMultVar (ecOps c) sel isFixed fixedW scalarLen Gen.Curves.MULT_W Gen.Curves.MULTI_MULT_W
+      Gen.Curves.BOS_COSTER_THRESHOLD scalars points = some r) :
+    JValid p c r ∧ absJ p c r = psum p c (scalars.zip points) :=
+  multiMultVar_ec hp H hH sel hsel isFixed fixedW scalarLen _ _ _ hfw scalars points hpts r h
+end CapstoneJac
+
+section CapstoneEntry
+variable {p : ℕ} [Fact p.Prime]
+
+/-- T8 on btclib's arithmetic: the public `mult(m, Q, ec)` of a concrete `Curve` (Python path, every curve but
+secp256k1) returns a valid pair denoting `m • Q`: EVERY integer `m`, any blind, generator and infinity included -/
+theorem mult_entry_ec (C : Curve) (hC : C.p = (p : ℤ)) (H : AddSubgroup (Pt p C.toCurveGroup))
+    (hH : NoTwoTorsionIn H) (hsecp : (ctxOf C).isSecp = false) (hn0 : 0 < C.n) (lam : ℤ)
+    (hlam : (lam : ZMod p) ≠ 0) (m : ℤ) (Q A : Point) (hQ : AValid p C.toCurveGroup Q)
+    (hQH : absA p C.toCurveGroup Q ∈ H) (hgy : C.gy ≠ 0) (hG : AValid p C.toCurveGroup C.G)
+    (hn : C.n • absA p C.toCurveGroup Q = 0) (h : multEntry (ctxOf C) lam m Q = some A) :
+    AValid p C.toCurveGroup A ∧ absA p C.toCurveGroup A = m • absA p C.toCurveGroup Q :=
+  multEntry_ec C hC H hH hsecp hn0 lam hlam m Q A hQ hQH hgy hG hn h
+
+theorem prepared_mult_ec (C : Curve) (hC : C.p = (p : ℤ)) (H : AddSubgroup (Pt p C.toCurveGroup))
+    (hH : NoTwoTorsionIn H) (hsecp : (ctxOf C).isSecp = false) (hn0 : 0 < C.n) (lam : ℤ)
+    (hlam : (lam : ZMod p) ≠ 0) (m : ℤ) (Q A : Point) (hQ : AValid p C.toCurveGroup Q)
+    (hQH : absA p C.toCurveGroup Q ∈ H) (hgy : C.gy ≠ 0) (hG : AValid p C.toCurveGroup C.G)
+    (hn : C.n • absA p C.toCurveGroup Q = 0) (h : preparedMult (ctxOf C) lam Q m = some A) :
+    AValid p C.toCurveGroup A ∧ absA p C.toCurveGroup A = m • absA p C.toCurveGroup Q :=
+  preparedMult_ec C hC H hH hsecp hn0 lam hlam m Q A hQ hQH hgy hG hn h
+end CapstoneEntry
+
+section CapstoneLawful
+variable {p : ℕ} [Fact p.Prime] {C : Curve}
+
+/-- (A) ⇒ hypothesis of (C): **`Btc.EC.ops C` is `Lawful`** on the reduced valid pairs of the `n`-torsion, with
+`G` = Mathlib's point group.  `CurveOk`: `p` odd prime, `n` odd prime (primality of constants is a hypothesis),
+generator reduced / on the curve / `≠ ∞` / `n • G = 0`; no hypothesis on cofactor or discriminant.
+`p ≡ 3 (mod 4)` (secp256k1) is needed by the two `liftX` fields only. -/
+theorem ec_ops_lawful (K : CurveOk p C) (h34 : p % 4 = 3) :
+    ∃ L : Lawful (opsSub K) (Pt p C.toCurveGroup), ∀ P, L.abs P = absA p C.toCurveGroup P.1 :=
+  ⟨lawful_ec K h34, fun _ => rfl⟩
+
+/-- `opsSub` IS `Btc.EC.ops C` on the underlying pairs: same `add`, `neg`, `mul`, `gen`, `x`, `y`, `eq`, … -/
+theorem ops_sub_is_ec_ops (K : CurveOk p C) (P Q : SubPt p C) (m : ℤ) :
+    ((opsSub K).add P Q).1 = (EC.ops C).add P.1 Q.1 ∧ ((opsSub K).neg P).1 = (EC.ops C).neg P.1 ∧
+    ((opsSub K).mul m P).1 = (EC.ops C).mul m P.1 ∧ (opsSub K).zero.1 = (EC.ops C).zero ∧
+    (opsSub K).gen.1 = (EC.ops C).gen ∧ (opsSub K).isZero P = (EC.ops C).isZero P.1 ∧
+    (opsSub K).x P = (EC.ops C).x P.1 ∧ (opsSub K).y P = (EC.ops C).y P.1 ∧
+    (opsSub K).eq P Q = (EC.ops C).eq P.1 Q.1 ∧ (opsSub K).n = (EC.ops C).n ∧ (opsSub K).p = (EC.ops C).p :=
+  opsSub_val K P Q m
+
+/-- … and `liftX` too on a curve of cofactor 1 with `Δ ≠ 0` (secp256k1's shape); with a cofactor btclib's
+`lift_x` leaves the prime-order subgroup, and returns `(x, 0)` — read as infinity — when `x³ + ax + b = 0` -/
+theorem ops_sub_liftX_is_ec_ops (K : CurveOk p C) (h34 : p % 4 = 3)
+    (hcof : ∀ g : Pt p C.toCurveGroup, C.n • g = 0)
+    (hΔ : (curveOf p C.toCurveGroup).toAffine.Δ ≠ 0) (x : ℤ) :
+    ((opsSub K).liftX x).map Subtype.val = (EC.ops C).liftX x :=
+  liftXSub_val_of_cofactor_one K h34 hcof hΔ x
+
+/-- `add_aff_var` (all four branches) is the affine group law on reduced valid pairs whose sum has not order 2 -/
+theorem add_aff_refines {c : CurveGroup} (hp : c.p = (p : ℤ)) (hp2 : p ≠ 2) (P Q : Point) (hP : AValid p c P)
+    (hQ : AValid p c Q) (rP : RedA c P) (rQ : RedA c Q)
+    (h2 : (absA p c P + absA p c Q) + (absA p c P + absA p c Q) = 0 → absA p c P + absA p c Q = 0) :
+    ∃ A : Point, addAff c P Q = some A ∧ AValid p c A ∧ RedA c A ∧ absA p c A = absA p c P + absA p c Q :=
+  addAff_spec hp hp2 P Q hP hQ rP rQ h2
+
+/-- T9 (`mod_sqrt_var`, `p ≡ 3 mod 4`): an answer is a reduced square root; a refusal means there is none -/
+theorem mod_sqrt_3mod4 (h34 : p % 4 = 3) (a : ℤ) :
+    (∀ r, modSqrt34 a (p : ℤ) = some r → (0 ≤ r ∧ r < p) ∧ (r : ZMod p) ^ 2 = (a : ZMod p)) ∧
+    (modSqrt34 a (p : ℤ) = none → ∀ y : ZMod p, y ^ 2 ≠ (a : ZMod p)) :=
+  ⟨fun r h => modSqrt34_some h34 a r h, fun h y => modSqrt34_none h34 a h y⟩
+
+/-- `pow(b, e, p)` is exponentiation in `ZMod p` -/
+theorem mod_pow_is_pow (b : ℤ) (e : ℕ) : ((modPow b e (p : ℤ) : ℤ) : ZMod p) = (b : ZMod p) ^ e := modPow_cast b e
+end CapstoneLawful
+
+/-! ### non-vacuity: `y² = x³ + 7` over `F₄₃` (31 points), every hypothesis PROVED (Proofs/C01/CapstoneToy.lean);
+the whole chain down to C02's `sign_verifies` is instantiated in Proofs/C01/CapstoneToyScheme.lean -/
+example : CurveOk 43 Toy.toyC := Toy.toyOk
+noncomputable example : Lawful (opsSub Toy.toyOk) (Pt 43 Toy.toyC.toCurveGroup) := Toy.toyLawful
+example : ∃ L : Lawful (opsSub Toy.toyOk) (Pt 43 Toy.toyC.toCurveGroup), ∀ P, L.abs P = absA 43 _ P.1 :=
+  ec_ops_lawful Toy.toyOk (by decide)
 
 end Props.C01
